@@ -836,6 +836,16 @@ func replayFile(t *testing.T, path string) {
 			return
 		}
 		checkEncode(t, test, p.Value.ToObject(), p.Script)
+	case "TestEncodeSequence":
+		var p seqPayload
+		if _, err := ev.LoadReplay(path, &p); err != nil {
+			t.Fatalf("load %s: %v", path, err)
+		}
+		var vals []tengo.Object
+		for _, s := range p.Values {
+			vals = append(vals, s.ToObject())
+		}
+		checkSequence(t, test, vals)
 	case "TestDecodeBytes", "TestDecodeBytesScript", "FuzzJSONDecode":
 		var p decPayload
 		if _, err := ev.LoadReplay(path, &p); err != nil {
